@@ -386,9 +386,8 @@ example : (grpReply env0 ⟨23, 5⟩ ⟨6, 8, 0⟩ [0,0,0,1,9, 0,0,0,1,22, 0,0,0
   simp [grpReply, hf, env0]
 /-- X25519: the toy curve does produce the all-zero secret for the point 0 -/
 example : toyX.exchange 5 (zeros 32) = .ok (zeros 32) := by
-  simp only [toyX]
   have : beVal (zeros 32) = 0 := by decide
-  simp [this, powMod_eq, toyQ]
+  simp [toyX, this, powMod_eq, toyQ]
   decide
 example : toyNist.decode [4, 0] = false := by decide
 
